@@ -283,6 +283,8 @@ def gen_case(world, tier, prop):
           g.shareable.append(g.next_id)
         vs.append(g.value() if e is None else e)
       op = {'op': 'setitem', 'key': key, 'vs': vs}
+      if vs and rng.random() < 0.12:
+        op['rhs_fails_after'] = rng.randrange(len(vs))   # iterating the RHS raises
     elif r < 0.86:
       op = {'op': 'delitem', 'key': g.key(m, rng.random() < 0.5)}
     elif r < 0.95:
@@ -298,6 +300,9 @@ def gen_case(world, tier, prop):
       op['susp'] = True    # made while history tracking is suspended
     ops.append(op)
     # advance the model so later ops are generated against the right size
+    if op.get('rhs_fails_after') is not None:
+      g.shareable = snapshot  # the assignment fails with its right-hand side
+      continue
     try:
       apply_model(m, op, mk)
     except M.Invalid:
@@ -361,7 +366,11 @@ def apply_impl(cfg, op, mk):
   elif k == 'setitem':
     key = real_key(op['key'], fdl.VARARGS)
     if 'vs' in op:
-      cfg[key] = [mk(v) for v in op['vs']]
+      vals = [mk(v) for v in op['vs']]
+      if op.get('rhs_fails_after') is not None:
+        from fsim import stubmod
+        vals = stubmod.FailingList(vals, op['rhs_fails_after'])
+      cfg[key] = vals
     else:
       cfg[key] = mk(op['v'])
   elif k == 'delitem':
@@ -647,6 +656,29 @@ def run(case):
             'C03', 'rejected-op-changed-state', op,
             f'op #{idx} {op} raised {type(raised).__name__} but changed the '
             'reported arguments: ' + '; '.join(C.diff(before_i, oi)), m))
+        if case['init']['btype'] == 'Config':
+          # C01's side of it: f is called with what the ACCEPTED edits configured
+          v = check_build(cfg, m, {'op': 'build', 'after': op['op']}, probes)
+          if v:
+            res['violations'].append(v)
+        return res
+      continue
+    if raised is not None and op.get('rhs_fails_after') is not None and valid:
+      # user code failed while the right-hand side was being read: the
+      # assignment may fail with it, but then nothing may have been written
+      bump(faults, 'rhs_iteration_raises')
+      m = m_before
+      oi = C.canon(observe_impl(cfg, m))   # (observed against the model as it was)
+      if oi != before_i:
+        res['violations'].append(viol(
+            'C03', 'rejected-op-changed-state', op,
+            f'op #{idx} {op}: the right-hand side raised {type(raised).__name__} '
+            'part-way and the assignment left the reported arguments changed: '
+            + '; '.join(C.diff(before_i, oi)), m))
+        if case['init']['btype'] == 'Config':
+          v = check_build(cfg, m, {'op': 'build', 'after': op['op']}, probes)
+          if v:
+            res['violations'].append(v)
         return res
       continue
     if raised is not None:
